@@ -54,6 +54,10 @@ class ParseDumpData(Unit):
     contracts = [CParseIlog, CParseTrace]
     max_paths = 3000
 
+    def setup_ctx(self, ctx):
+        # bytes.find with its full contract: the LEAST offset of an occurrence, -1 iff there is none (quantified)
+        ctx.find_minimality = True
+
     def inputs(self, S):
         if S.symbolic:
             return dict(data=S.bytes("data", kind='memoryview'), header_file="h.h", string_file="strings")
@@ -114,6 +118,20 @@ class ParseDumpData(Unit):
         P.prove(And(*[bounds[k] <= bounds[k + 1] for k in range(len(bounds) - 1)]),
                 "the regions are consecutive and cover every byte exactly once")
         P.prove(And(*[order[k] < order[k + 1] for k in range(len(order) - 1)]), "trace regions are reported in strictly ascending address order")
+        # "earliest recognised header": stated on the bytes, independently of how the code searched
+        q = z3.Int('q!c17')
+        first = zint(order[0]) if order else zint(n)
+        for nm in NAMES:
+            P.prove(z3.ForAll([q], z3.Implies(z3.And(q >= 0, q < first, q + 8 <= zint(n)), z3.Not(zbool(header_at(d, q, nm))))),
+                    "no %s header starts before the end of the ILOG region (the ILOG region ends at the earliest recognised header)" % nm)
+        for b in order:
+            P.prove(Or(*[header_at(d, b, nm) for nm in NAMES]), "every trace region starts at a recognised header")
+        for (_b, pat, r), nm in zip(finds, NAMES):
+            if ctx.is_true(r == -1):
+                P.prove(z3.ForAll([q], z3.Implies(z3.And(q >= 0, q + 8 <= zint(n)), z3.Not(zbool(header_at(d, q, nm))))),
+                        "a buffer name without a region has no header anywhere in the dump")
+            else:
+                P.prove(Or(*[Eq(r, b) for b in order]), "the first header of each buffer name that occurs starts a region")
 
 
 def spec_sorted(xs):
